@@ -167,7 +167,7 @@ def plan(tier: str) -> list[dict]:
     from .. import libgames
     names = libgames.names()
     shards = 4 if tier == "quick" else 16
-    seeds = 6 if tier == "quick" else 12
+    seeds = 6 if tier == "quick" else 60
     out = []
     for k in range(shards):
         out.append({"names": names[k::shards], "seeds": seeds, "cost": 3})
